@@ -457,6 +457,57 @@ def compoundOperator (vs : List (Oper α)) : Oper α :=
             | [c] => pure (c, tape)
             | _ => .error .arity) off tape
         else .error .platypus) (fun tape => pure (parents, tape)) }
+/-! ### `Multimethod(algorithm, variators, update_frequency)`
+
+`select()`: the call counter goes up; when it reaches `update_frequency` it is reset and the probabilities become
+`counts[i] / float(sum(counts))` (`counts[i]` = 1 + number of members of the algorithm's archive / recency list that carry
+tag `i`; counted by the caller); then `roulette(probabilities)` draws `uniform(0.0, sum(probabilities))` and returns the
+first index whose running total exceeds the draw (0 if none does).  The constructor sets the probabilities to
+`1.0 / len(variators)` and selects once.  One `evolve` call applies the variator chosen by the previous `select()`,
+tags the offspring with its index and selects again. -/
+
+structure MMState (α : Type) where
+  next : Nat
+  lastUpdate : Nat
+  freq : Nat
+  probs : List α
+
+/-- the cumulative scan of `roulette`: first index whose running total exceeds `r`, 0 if none -/
+def rouletteScan [LT α] [DecidableLT α] [Add α] (r : α) : List α → α → Nat → Nat
+  | [], _, _ => 0
+  | p :: rest, acc, i => if r < acc + p then i else rouletteScan r rest (acc + p) (i + 1)
+
+/-- `roulette(probabilities)`; `total` is Python's `sum` -/
+def roulette [BEq α] [LT α] [DecidableLT α] [Add α] (zero : α) (total : List α → α) (ps : List α) : M α Nat := fun tape => do
+  let (r, tape) ← popUniformU zero (total ps) tape
+  pure (rouletteScan r ps zero 0, tape)
+
+/-- `Multimethod.select()` -/
+def multimethodSelect [BEq α] [LT α] [DecidableLT α] [Add α] (zero : α) (total : List α → α) (newProbs : List Nat → List α)
+    (counts : List Nat) (st : MMState α) : M α (MMState α) := fun tape => do
+  let lu := st.lastUpdate + 1
+  let (lu, probs) := if lu ≥ st.freq then (0, newProbs counts) else (lu, st.probs)
+  let (nx, tape) ← roulette zero total probs tape
+  pure ({ next := nx, lastUpdate := lu, freq := st.freq, probs := probs }, tape)
+
+/-- `Multimethod.__init__` (`initProbs n` = `[1.0 / n] * n`) -/
+def multimethodInit [BEq α] [LT α] [DecidableLT α] [Add α] (zero : α) (total : List α → α) (newProbs : List Nat → List α)
+    (initProbs : Nat → List α) (n freq : Nat) (counts : List Nat) : M α (MMState α) :=
+  multimethodSelect zero total newProbs counts { next := 0, lastUpdate := 0, freq := freq, probs := initProbs n }
+
+/-- one `Multimethod.evolve(parents)`: the offspring, the tag they all receive, and the operator's next state -/
+def multimethodEvolve [BEq α] [LT α] [DecidableLT α] [Add α] (zero : α) (total : List α → α) (newProbs : List Nat → List α)
+    (vs : List (Oper α)) (counts : List Nat) (st : MMState α) (parents : List (OSol α)) :
+    M α ((List (OSol α) × Nat) × MMState α) := fun tape =>
+  match vs[st.next]? with
+  | none => .error .index
+  | some v => do
+    let (kids, tape) ← v.evolve parents tape
+    let (st', tape) ← multimethodSelect zero total newProbs counts st tape
+    pure (((kids, st.next), st'), tape)
+
+/-- the arity a `Multimethod` reports between calls: that of the variator selected for the next call -/
+def multimethodArity (vs : List (Oper α)) (st : MMState α) : Nat := (vs[st.next]?.map (·.arity)).getD 0
 end
 
 end Platypus
